@@ -248,6 +248,7 @@ static int pid_is_held(pid_t pid);
 static void proc_events(void);
 static int64_t proc_next_time(void);
 static void raise_process_sig(int sig);
+static struct simk_fault *fault_at(int site);
 
 /* ---- signals --------------------------------------------------------- */
 /* The kernel orders sigaction() before any invocation of the handler it installs; the
@@ -699,6 +700,11 @@ int simk_pthread_create(pthread_t *pt, const pthread_attr_t *a, void *(*f)(void 
 	int i;
 
 	simk_yield();
+	{
+		struct simk_fault *ft = fault_at(FS_PTHREAD_CREATE);
+		if (ft)
+			return ft->err;
+	}
 	i = thread_new(pt, a, f, arg, 1);
 	if (i < 0)
 		return -i;
@@ -865,11 +871,37 @@ int simk_pthread_spin_unlock(pthread_spinlock_t *l)
 
 /* ---- faults ------------------------------------------------------------- */
 /* returns the matching fault (and counts it) or NULL */
+/* one-shot faults armed by the harness for the calling thread's next call at a site (a fault
+ * that belongs to one particular operation of the plan rather than to a global call index) */
+static int once_err[SIMK_MAXT][FS_MAX];
+static struct simk_fault once_fault;
+
+void simk_fault_once(int site, int err)
+{
+	once_err[me][site] = err;
+}
+int simk_fault_once_pending(int site)
+{
+	int e = once_err[me][site];
+	once_err[me][site] = 0;
+	return e;
+}
+
 static struct simk_fault *fault_at(int site)
 {
 	long tc = ++T[me].site_count[site];
 	long gc = ++site_gcount[site];
 	int i;
+
+	if (once_err[me][site]) {
+		once_fault.site = site;
+		once_fault.err = once_err[me][site];
+		once_fault.mode = 0;
+		once_err[me][site] = 0;
+		simk_stats.fault_fired[site]++;
+		simk_log(40, site, once_fault.err);
+		return &once_fault;
+	}
 
 	for (i = 0; i < cfg.nfaults; i++) {
 		struct simk_fault *f = &cfg.faults[i];
@@ -1254,7 +1286,10 @@ long simk_syscall(long nr, ...)
 int simk_inotify_init(void)
 {
 	int r;
+	struct simk_fault *f;
 	simk_yield();
+	f = fault_at(FS_INOTIFY_INIT);
+	if (f) { errno = f->err; return -1; }
 	r = inotify_init();
 	if (r >= 0)
 		fd_own(r);
@@ -1262,7 +1297,10 @@ int simk_inotify_init(void)
 }
 int simk_inotify_add_watch(int fd, const char *path, uint32_t mask)
 {
+	struct simk_fault *f;
 	simk_yield();
+	f = fault_at(FS_INOTIFY_ADD);
+	if (f) { errno = f->err; return -1; }
 	return inotify_add_watch(fd, path, mask);
 }
 int simk_inotify_rm_watch(int fd, int wd)
